@@ -42,15 +42,32 @@ META = {
 NAME_ALPHABET = "abcdefgXYZ0123456789 _-.;!?/\\'\"()<>=+*&^%$#@~|éü²³٣中"
 
 
+WORDS = ["HLA", "DRB6", "a", "b8", "x", "gene", "7", "NF", "kB", "Z"]
+
+
 @st.composite
-def str_names(draw, n):
+def str_names(draw, n, long_names=False):
     out = []
     seen = set()
     tries = 0
-    while len(out) < n and tries < 200:
+    while len(out) < n and tries < 200 + 3 * n:
         tries += 1
-        k = draw(st.integers(1, 5))
-        s = "".join(draw(st.lists(st.sampled_from(NAME_ALPHABET), min_size=k, max_size=k))).strip()
+        how = draw(st.integers(0, 5)) if long_names else 0
+        if how <= 2:
+            k = draw(st.integers(1, 5))
+            s = "".join(draw(st.lists(st.sampled_from(NAME_ALPHABET), min_size=k, max_size=k))).strip()
+        elif how <= 4:
+            # words joined by hyphens, single or double blanks, dots (gene-like names)
+            nw = draw(st.integers(2, 4))
+            s = draw(st.sampled_from(WORDS))
+            for _ in range(nw - 1):
+                s += draw(st.sampled_from(["-", " ", "  ", ".", "_", " - "])) + draw(st.sampled_from(WORDS))
+            s += str(len(out))
+        else:
+            # one very long name (longer than any line width a writer could think of)
+            k = draw(st.sampled_from([70, 81, 100, 130]))
+            s = (draw(st.sampled_from(WORDS)) + draw(st.sampled_from(["-", " ", "  "]))) * k
+            s = (s[:k] + "x%d" % len(out)).strip()
         if not s or s in seen:
             continue
         try:
@@ -66,12 +83,17 @@ def str_names(draw, n):
 @st.composite
 def rt_rankings(draw, max_n=8, allow_empty=True):
     n = draw(st.sampled_from(list(range(0 if allow_empty else 1, max_n + 1))))
+    wide = max_n >= 8 and draw(st.integers(0, 7)) == 0      # a ranking whose text is hundreds of characters long
+    if wide:
+        n = draw(st.sampled_from([25, 40, 60]))
     if draw(st.booleans()):
         pool = draw(st.sampled_from([list(range(0, 20)), [0, 7, 10, 100, 1000, 2 ** 40, 2 ** 70, 99, 5, 12, 13, 8, 16]]))
+        if wide:
+            pool = list(range(0, 3000, 37)) + [2 ** 40 + i for i in range(20)]
         names = list(draw(st.permutations(pool)))[:n]
         kind = "int"
     else:
-        names = draw(str_names(n))
+        names = draw(str_names(n, long_names=wide or draw(st.integers(0, 3)) == 0))
         kind = "str"
     return kind, draw(gen.weak_order_of(names))
 
@@ -131,11 +153,15 @@ def check_roundtrip(case, ctx):
 def file_cases(draw, tier):
     m = draw(st.integers(1, 5))
     kind = draw(st.sampled_from(["int", "str"]))
+    # one file in six has lines of several hundred characters (many elements and / or long names)
+    wide = draw(st.integers(0, 5)) == 0
     if kind == "int":
-        pool = list(range(0, 12))
-        names = list(draw(st.permutations(pool)))[:draw(st.integers(1, 8))]
+        pool = list(range(0, 12)) if not wide else list(range(0, 5000, 41)) + [10 ** 12 + i for i in range(10)]
+        names = list(draw(st.permutations(pool)))[:draw(st.integers(1, 8)) if not wide else
+                                                  draw(st.sampled_from([20, 35, 60]))]
     else:
-        names = draw(str_names(draw(st.integers(1, 6))))
+        names = draw(str_names(draw(st.integers(1, 6)) if not wide else draw(st.sampled_from([12, 20, 30])),
+                               long_names=wide or draw(st.integers(0, 3)) == 0))
         if not names:
             names = ["a"]
     rankings = []
@@ -172,6 +198,28 @@ def check_file(case, ctx):
         d2 = lib.must(Dataset.from_file, path)
         with open(path, encoding="utf-8") as f:
             content = f.read()
+        # the two other public readers of the same file: they must see the dataset that was written as well
+        want_ms = Counter(oracle.canon(r) for r in lib.normalized(rankings))
+        others = [("Dataset.get_dataset_from_file", lib.must(Dataset.get_dataset_from_file, path))]
+        folder = lib.must(Dataset.get_datasets_from_folder, tmp)
+        if not isinstance(folder, list) or len(folder) != 1:
+            raise Violation("Dataset.get_datasets_from_folder on a folder holding one file returned %r" % (folder,))
+        others.append(("Dataset.get_datasets_from_folder", folder[0]))
+        for what, dx in others:
+            if Counter(oracle.canon(r) for r in lib.model_of_dataset(dx)) != want_ms:
+                raise Violation("dataset %s written as %r reads back through %s as %s" % (
+                    rankings, content, what, lib.model_of_dataset(dx)))
+        if rankings:
+            # one ranking alone in a file: Ranking.from_file reads what Ranking.from_string reads
+            rpath = os.path.join(tmp, "ranking.txt")
+            r0 = lib.mk_ranking(rankings[0])
+            with open(rpath, "w", encoding="utf-8") as f:
+                f.write(str(r0))
+            rf = lib.must(Ranking.from_file, rpath)
+            os.remove(rpath)
+            if lib.model_of_ranking(rf) != lib.model_of_ranking(lib.must(Ranking.from_string, str(r0))):
+                raise Violation("Ranking.from_file on %r gives %s, Ranking.from_string gives %s" % (
+                    str(r0), rf, Ranking.from_string(str(r0))))
         if case.get("second"):
             # the path is fresh again after the file is deleted: another dataset written there must read back as itself
             os.remove(path)
@@ -187,7 +235,8 @@ def check_file(case, ctx):
     want = Counter(oracle.canon(r) for r in lib.normalized(rankings))
     got = Counter(oracle.canon(r) for r in lib.model_of_dataset(d2))
     ctx.stats.case(case, len(rankings) >= 2 and any(len(b) > 1 for r in rankings for b in r),
-                   ["kind:" + case["kind"], "has_empty_ranking" if any(not r for r in rankings) else "no_empty_ranking"])
+                   ["kind:" + case["kind"], "has_empty_ranking" if any(not r for r in rankings) else "no_empty_ranking",
+                    "longest_line:%s" % ("<=80" if max(len(x) for x in content.split("\n")) <= 80 else ">80")])
     if got != want:
         raise Violation("dataset %s written as %r reads back as %s" % (rankings, content, lib.model_of_dataset(d2)))
     types = {type(e) for r in lib.model_of_dataset(d2) for b in r for e in b}
